@@ -9,12 +9,10 @@ def main():
     for e in k["known"]:
         assert e.get("property") and e.get("what") and (e.get("fingerprint") or e.get("fingerprint_prefix")), e
     man = json.load(open(os.path.join(runner.VERIF, "MANIFEST.json")))
-    try:
-        import jsonschema
+    from vlib import schema
 
-        jsonschema.validate(man, json.load(open("/root/.vp/MANIFEST.schema.json")))
-    except (ImportError, FileNotFoundError):
-        pass
+    err = schema.validate(man, "/root/.vp/MANIFEST.schema.json")
+    assert not err, err
     import strax  # noqa: F401  (compiles the eagerly-jitted functions into the keyed cache dir)
 
     print("setup ok; numba cache:", os.environ.get("NUMBA_CACHE_DIR"), "strax", strax.__version__, "from", os.path.dirname(strax.__file__))
